@@ -192,6 +192,15 @@ def rule_streams_flushed(rep, idxs):
         m = m[0]
         n = 0
         for d in walk(m.body):
+            if d.get('kind') == 'VarDecl' and re.search(r'(unique_ptr|shared_ptr)<', _qt(d) + ' ' + _dqt(d)):
+                mm = re.search(r'(?:unique_ptr|shared_ptr)<\s*((?:class |struct )?[\w:]+)', _dqt(d) + ' ' + _qt(d))
+                tn = mm.group(1).replace('class ', '').replace('struct ', '') if mm else ''
+                tq = tn if tn in ix.records else (ix._resolve_record_name(tn.split('::')[-1], 'hexsim::Processor') or tn)
+                if tq in ix.records and _owns_stream(ix, tq):
+                    n += 1
+                    rep.add('R5', '%s:main:%s' % (tu, d.get('name')), True, pos(d) + ' main(%s)' % tu,
+                            'a %s owned by a smart pointer: destroyed when main returns' % tq, nontrivial=False)
+                    continue
             if d.get('kind') == 'VarDecl':
                 t = re.sub(r'^(const )?(class |struct )?', '', _qt(d)).strip()
                 if t in ix.records and _owns_stream(ix, t):
